@@ -91,7 +91,7 @@ impl Property for C01 {
             knobs: Knobs { max_nodes, variant, ..Default::default() },
         };
         match tier {
-            Tier::Quick => vec![mk("whole", 40_000, 0, 30), mk("subtree", 20_000, 1, 30), mk("api-free", 60_000, 2, 24)],
+            Tier::Quick => vec![mk("whole", 200_000, 0, 30), mk("subtree", 100_000, 1, 30), mk("api-free", 300_000, 2, 24)],
             Tier::Thorough => vec![mk("whole", 1_200_000, 0, 30), mk("whole-big", 80_000, 0, 120), mk("subtree", 600_000, 1, 30), mk("api-free", 800_000, 2, 24)],
         }
     }
